@@ -1936,3 +1936,41 @@ def c09_sumid(ctx):
         out.fail(key, '%s::sum returns Default::default() for an empty input. Iterator::sum returns the identity of the type\'s Sum impl, which for f32/f64 is -0.0, '
                       'not +0.0: with num_threads(1) (and in parallel) an empty float sum differs from the std chain in its sign bit' % PAR_TRAIT, b.where())
     return out
+
+
+# ======================================================================================= C15-TIES
+@rule('C15-TIES', 'selection reductions (min*/max*) cannot give a parameter-independent element for ties: the parallel reduce does not keep operands in source order')
+def c15_ties(ctx):
+    out = RuleOut('C15-TIES')
+    F = ctx.facts
+    # structural premise: in the reduce tasks one accumulator is threaded across successive pulls of the same worker, i.e. a worker
+    # combines chunks that are not adjacent in the source (other workers pull in between)
+    from .rules_tasks import acc_tasks
+    threaded = []
+    for tb in acc_tasks(ctx, False):
+        r = ctx.run0(tb.name)
+        cfg = ctx.cfg(tb)
+        if any(cfg.innermost_loop(bb) is not None and is_pull_call(c['t']) for bb, c in r.call_sites()) or ctx.facts.closures_in(tb):
+            threaded.append(key_of(tb))
+    n = 0
+    for m in ('min', 'max', 'min_by', 'max_by', 'min_by_key', 'max_by_key'):
+        b = F.bodies.get(PAR_TRAIT + '::' + m)
+        if b is None:
+            continue
+        n += 1
+        tab, why = selection_table(ctx, m)
+        key = 'C15-TIES/%s::%s' % (PAR_TRAIT, m)
+        if tab is None:
+            out.inst(key, False, why)
+            out.fail(key, '%s::%s: not a recognisable selection: %s' % (PAR_TRAIT, m, why), b.where(), kind='undecided')
+            continue
+        order_dependent = tab['Equal'] in ('x', 'y') and bool(threaded)
+        out.inst(key, not order_dependent, 'Equal => %s; reduce tasks that fold non-adjacent pulls: %d' % (tab['Equal'], len(threaded)),
+                 sample={'method': m, 'table': tab, 'reduce_tasks': threaded[:3]})
+        if order_dependent:
+            out.fail(key, '%s::%s selects the %s of two equal elements, so its result for ties depends on the order in which operands are combined; each worker '
+                          'folds the chunks it happens to pull (not adjacent in the source) and the runner folds the per-worker results in spawn order, so with '
+                          'more than one thread a different one of several equal extrema is returned than with num_threads(1)'
+                     % (PAR_TRAIT, m, 'first' if tab['Equal'] == 'x' else 'second'), b.where())
+    out.floor('wrappers', n, 6 if not ctx.fixture else 0)
+    return out
